@@ -1,4 +1,5 @@
 import Adc.Wire
+import Adc.Unitary
 /- Line-protocol driver: one JSON request per line on stdin, one JSON answer per line on stdout. -/
 open Lean Adc Adc.Wire
 
@@ -45,6 +46,28 @@ def handle (j : Json) : P Json := do
     | .one => pure (Json.mkObj [("r", "one")])
     | .zero => pure (Json.mkObj [("r", "zero")])
     | .keep a b => pure (Json.mkObj [("r", "keep"), ("i", jIdx a), ("j", jIdx b)])
+  | "unitary" =>     -- C20: simplify_unitary, certified unitary steps on e1, then equivalence with e2
+    let e1 ← pExpr (← fld j "e1")
+    let e2 ← pExpr (← fld j "e2")
+    let name ← (← fld j "name").getStr?
+    let u ← (← arr (← fld j "u")).toList.mapM fun s => do
+      (← arr s).toList.mapM fun st => do
+        pure ({ k₁ := ← (← fld st "k1").getNat?, k₂ := ← (← fld st "k2").getNat?,
+                first := ← (← fld st "first").getBool? } : UStep)
+    let c1 ← match j.getObjVal? "c1" with | .ok c => pCert c | .error _ => pure []
+    let c2 ← match j.getObjVal? "c2" with | .ok c => pCert c | .error _ => pure []
+    if checkUnitary name e1 e2 u c1 c2 then pure (Json.mkObj [("ok", true)])
+    else
+      match applyUCert name e1 u with
+      | none => pure (Json.mkObj [("ok", false), ("why", "ucert")])
+      | some e1' => pure (Json.mkObj [("ok", false), ("why", "equiv"), ("e1u", jExpr e1')])
+  | "ustep" =>       -- apply unitary steps to one term (used by the certificate search)
+    let t ← pTerm (← fld j "t")
+    let name ← (← fld j "name").getStr?
+    let st ← fld j "s"
+    match unitaryStep name t (← (← fld st "k1").getNat?) (← (← fld st "k2").getNat?) (← (← fld st "first").getBool?) with
+    | none => pure (Json.mkObj [("ok", false)])
+    | some t' => pure (Json.mkObj [("ok", true), ("t", jTerm t')])
   | "ordersubs" =>   -- C08: order_substitutions
     let m ← pSub (← fld j "m")
     pure (Json.mkObj [("seq", jSub (orderSubs m))])
